@@ -19,7 +19,7 @@ class ExactNet(torch.nn.Module):
     Every forward records (training flag, grad enabled, batch shape) in self.calls.
     """
 
-    def __init__(self, A, L, outputs, n_args=0, seed=0, container="tensor", wmax=9, has_param=True):
+    def __init__(self, A, L, outputs, n_args=0, seed=0, container="tensor", wmax=9, has_param=True, param_dtype=torch.float64):
         super().__init__()
         rs = numpy.random.RandomState(seed % (2 ** 31))
         self.A, self.L = A, L
@@ -30,8 +30,8 @@ class ExactNet(torch.nn.Module):
         W1, W2 = [], []
         for o in self.outputs:
             n = int(numpy.prod(o))
-            W1.append(torch.tensor(rs.randint(-wmax, wmax + 1, size=(n, A, L)), dtype=torch.float64))
-            W2.append(torch.tensor(rs.randint(-wmax, wmax + 1, size=(n, A, L)), dtype=torch.float64))
+            W1.append(torch.tensor(rs.randint(-wmax, wmax + 1, size=(n, A, L)), dtype=param_dtype))   # small integers: exact in float32 too
+            W2.append(torch.tensor(rs.randint(-wmax, wmax + 1, size=(n, A, L)), dtype=param_dtype))
         if has_param:
             self.W1 = torch.nn.ParameterList([torch.nn.Parameter(w) for w in W1])
             self.W2 = torch.nn.ParameterList([torch.nn.Parameter(w) for w in W2])
